@@ -9,6 +9,7 @@
   compared with the real lowerer's answers on every run.
 -/
 import RotoV.Lemmas.Layout
+import RotoV.Lemmas.LayoutPath
 
 namespace RotoV.C02
 open RotoV RotoV.Layout RotoV.LayoutStd RotoV.Gen.LayoutGen
@@ -42,16 +43,9 @@ def InOrder (a b : Visit) : Prop := ∀ la, layoutOf a.2.2 = some la → a.2.1 +
 theorem fields_disjoint_record (fs : Tys) (L : Layout) (h : layoutOf (.record fs) = some L) :
     ∃ vs, placement fs 0 LayoutBuilder.new = some vs ∧ vs.length = fs.length ∧
       (∀ v ∈ vs, ComponentOk 0 L.size v) ∧ vs.Pairwise InOrder := by
-  cases hb : buildFields fs LayoutBuilder.new with
-  | none => simp [layoutOf, hb] at h
-  | some b =>
-    simp [layoutOf, hb] at h; subst h
-    obtain ⟨vs, hvs⟩ := buildFields_placement fs 0 _ b hb
-    obtain ⟨b', hb', hp, hlen⟩ := placement_placed fs 0 _ vs hvs
-    rw [hb] at hb'; cases hb'
-    have hp' : Placed 0 vs b.finish.size := placed_mono hp (Nat.zero_le _) (finish_size_ge b)
-    obtain ⟨h1, h2⟩ := placed_explicit hp'
-    exact ⟨vs, hvs, hlen, h1, h2⟩
+  obtain ⟨vs, hvs, hlen, hp⟩ := record_placed fs L h
+  obtain ⟨h1, h2⟩ := placed_explicit hp
+  exact ⟨vs, hvs, hlen, h1, h2⟩
 
 /-- **T2 `fields_disjoint` (enums)** — in every enum, every inhabited variant's
     fields lie after the `u8` tag at offset 0 (`1 ≤ offset`), inside
@@ -61,12 +55,8 @@ theorem fields_disjoint_variant (vs : Vars) (L : Layout) (h : layoutOf (.enum vs
     (hinh : collectLayouts fields = some ls) :
     ∃ ps, placement fields 0 variantStart = some ps ∧ ps.length = fields.length ∧
       (∀ v ∈ ps, ComponentOk 1 L.size v) ∧ ps.Pairwise InOrder := by
-  obtain ⟨ps, hps⟩ := collectLayouts_placement fields 0 variantStart ls hinh
-  obtain ⟨b', hb', hp, hlen⟩ := placement_placed fields 0 _ ps hps
-  have hge := (enumLayout_ge vs none L (by simpa [layoutOf] using h)).2 k fields b' hk hb'
-  have hp' : Placed 1 ps L.size :=
-    placed_mono hp (by rw [variantStart_eq]; exact Nat.le_refl _) (Nat.le_trans (finish_size_ge b') hge)
-  obtain ⟨h1, h2⟩ := placed_explicit hp'
+  obtain ⟨ps, hps, hlen, hp⟩ := variant_placed vs L h k fields hk ls hinh
+  obtain ⟨h1, h2⟩ := placed_explicit hp
   exact ⟨ps, hps, hlen, h1, h2⟩
 
 example : ∃ vs, placement (.cons (.leaf .int 1 1) (.cons (.leaf .int 8 8) (.cons .unit (.cons (.leaf .int 2 2) .nil))))
@@ -143,5 +133,47 @@ example : getField (.cons .never (.cons (.leaf .int 4 4) .nil)) 1 LayoutBuilder.
     cloneRecordVisits (.cons .never (.cons (.leaf .int 4 4) .nil)) = [(1, 0, .leaf .int 4 4)] := ⟨rfl, rfl⟩
 example : variantField (.cons (.cons (.leaf .int 1 1) (.cons (.leaf .int 8 8) .nil)) .nil) 0 1
     = .ok (some (8, .leaf .int 8 8)) := rfl
+
+/-- **`location_total`** (used by T4) — on an inhabited type, for every
+    projection path to a component that exists at run time (`PathOk`: fields
+    exist, variants walked through are inhabited), `Lowerer::location` does not
+    panic and does not answer "uninhabited"; the component has a layout and its
+    bytes lie inside the bytes of the whole value. -/
+theorem location_total (t : Ty) (p : List Proj) (t' : Ty) (hp : PathOk t p t') (L : Layout)
+    (hL : layoutOf t = some L) :
+    ∃ off l', locate t p 0 = .ok (some (off, t')) ∧ layoutOf t' = some l' ∧ off + l'.size ≤ L.size := by
+  obtain ⟨off, l', a, b, _, d⟩ := locate_ok t p t' hp L hL 0
+  exact ⟨off, l', a, b, by omega⟩
+
+/-- **T4 `write_read`** — over a byte memory holding a value of type `t` at
+    address `base`: writing component `p` (any bytes of the component's size)
+    and reading it back returns what was written; reading any independent
+    component `q` (`Indep`: the paths part at two fields of one record or of
+    one variant — arbitrarily deep, arbitrary nesting below) returns what was
+    there before. -/
+theorem write_read (t : Ty) (L : Layout) (hL : layoutOf t = some L) (p q : List Proj) (tp tq : Ty)
+    (hp : PathOk t p tp) (hq : PathOk t q tq) (hi : Indep t p q) (base : Nat) (m : Mem) (bs : List Nat) :
+    ∃ op oq lp lq, locate t p 0 = .ok (some (op, tp)) ∧ locate t q 0 = .ok (some (oq, tq)) ∧
+      layoutOf tp = some lp ∧ layoutOf tq = some lq ∧
+      (m.write (base + op) bs).read (base + op) bs.length = bs ∧
+      (bs.length = lp.size →
+        (m.write (base + op) bs).read (base + oq) lq.size = m.read (base + oq) lq.size) := by
+  obtain ⟨op, lp, a1, a2, _, _⟩ := locate_ok t p tp hp L hL 0
+  obtain ⟨oq, lq, b1, b2, _, _⟩ := locate_ok t q tq hq L hL 0
+  refine ⟨op, oq, lp, lq, a1, b1, a2, b2, Mem.read_write_same _ _ _, ?_⟩
+  intro hlen
+  have := paths_disjoint t p q hi tp tq hp hq L hL 0 op oq lp lq a1 b1 a2 b2
+  apply Mem.read_write_disjoint
+  omega
+
+/-- non-vacuity of T4: `r.b.0` (field 0 of variant 0 of field 1) and `r.c` of
+    `{a: u8, b: enum { V(u64, u16) }, c: u32}` are independent, at offsets 16 and 32 -/
+example :
+    let e := Ty.enum (.cons (.cons (.leaf .int 8 8) (.cons (.leaf .int 2 2) .nil)) .nil)
+    let r := Ty.record (.cons (.leaf .int 1 1) (.cons e (.cons (.leaf .int 4 4) .nil)))
+    Indep r [.field 1, .variantField 0 0] [.field 2] ∧
+    locate r [.field 1, .variantField 0 0] 0 = .ok (some (16, .leaf .int 8 8)) ∧
+    locate r [.field 2] 0 = .ok (some (32, .leaf .int 4 4)) :=
+  ⟨.field_ne (by decide), rfl, rfl⟩
 
 end RotoV.C02
